@@ -102,8 +102,8 @@ def _c18_nontrivial(line, verdict):
     return "resource-limit" not in verdict
 
 PROPS["C18"] = {
-    "modules": ["IbexProofs.Props.C18", "IbexProofs.Props.C18resume"],
-    "harnesses": ["h_cov", "h_solver"],
+    "modules": ["IbexProofs.Props.C18", "IbexProofs.Props.C18resume", "IbexProofs.Props.C07"],
+    "harnesses": ["h_cov", "h_solver", "h_optim"],
     "workloads": lambda tier, seed: [
         # random objects of the 7 classes: save, bytes vs model, reload, cross-class loads, trailing bytes
         {"harness": "h_cov", "tag": "save", "args": ["save", seed, 280 if tier == "quick" else 4000] + (["full"] if tier == "thorough" else [])},
@@ -111,6 +111,8 @@ PROPS["C18"] = {
         {"harness": "h_cov", "tag": "corrupt", "args": ["corrupt", seed, 28 if tier == "quick" else 210] + (["full"] if tier == "thorough" else [])},
         # solver: interruption at every cell count k (and by the time limit), save, load, resume, chains of interruptions
         {"harness": "h_solver", "tag": "resume", "args": ["c18r", seed, 45 if tier == "quick" else 400] + (["full"] if tier == "thorough" else [])},
+        # optimizer: interruption by the deterministic cell budget (hook H2) at every k, save, load, resume with fresh objects, chains
+        {"harness": "h_optim", "tag": "optresume", "args": ["resume", seed, 350 if tier == "quick" else 2500] + (["full"] if tier == "thorough" else [])},
     ],
     "nontrivial": _c18_nontrivial,
     "rule": "save: random contents built through the API of Cov, CovList, CovIUList, CovIBUList, CovManifold, CovSolverData, "
@@ -126,7 +128,10 @@ PROPS["C18"] = {
             "saved to a COV file, reloaded (resumeload: loaded paving = saved paving), resumed by a fresh solver with fresh components "
             "(25%: interrupted again, chains of 2-3 resumptions); per resumed run `Cover.stageOk` (carry-over of validated boxes unchanged, "
             "unknown/pending boxes re-queued or kept, log accepted by the cover certificate) and on the final data the C05/C06 rules: exactly "
-            "feasible planted/sampled points in the paving, inner boxes proved by the model, unknown boxes small, status agrees with the output",
+            "feasible planted/sampled points in the paving, inner boxes proved by the model, unknown boxes small, status agrees with the output; "
+            "resume (optimizer): problems with a minimum known by construction, every interruption point of small searches through the cell budget (hook H2), "
+            "chains of 2-3 interruptions, state saved to a COV file (extended or original space), reloaded, resumed with fresh objects: the final result must pass "
+            "the verified result checker of C07 (bounds, witness, status), the loup never exceeds a saved loup and an unimproved loup keeps its point (resumed_sound)",
     "assumptions": ["correspondence is sampled: the real writer/reader agree with encode/decode on every generated file",
                     "the reader of class k is modelled at the level of the file contents it returns through the public accessors "
                     "(statuses per box, index lists, varsets, names, scalars); object internals are not modelled",
@@ -366,3 +371,6 @@ PROPS["C13"] = _C13
 
 from props_C15 import ENTRY as _C15
 PROPS["C15"] = _C15
+
+from props_C07 import ENTRY as _C07
+PROPS["C07"] = _C07
